@@ -630,3 +630,54 @@ func (d *DB) ApplyPrefix(s Stmt, r int) error {
 	}
 	return fmt.Errorf("model: no prefix semantics for %s", s.Kind)
 }
+
+// ---------------------------------------------------------------- (de)serialisation
+
+type DumpTable struct {
+	Name string  `json:"name"`
+	Cols []Col   `json:"cols"`
+	Rows [][]Val `json:"rows"`
+	Seqs []int   `json:"seqs"`
+}
+
+// Dump serialises the model (for child processes and replay files).
+func (d *DB) Dump() []DumpTable {
+	var out []DumpTable
+	for _, n := range d.Order {
+		t := d.Tables[n]
+		dt := DumpTable{Name: n, Cols: t.Cols, Rows: [][]Val{}}
+		for _, r := range t.Rows {
+			var row []Val
+			for _, v := range r.Vals {
+				row = append(row, FromGo(v))
+			}
+			dt.Rows = append(dt.Rows, row)
+			dt.Seqs = append(dt.Seqs, r.Seq)
+		}
+		out = append(out, dt)
+	}
+	return out
+}
+
+func LoadDump(dts []DumpTable) *DB {
+	d := NewDB()
+	for _, dt := range dts {
+		t := &Table{Name: dt.Name, Cols: dt.Cols}
+		for i, row := range dt.Rows {
+			r := &Row{}
+			if i < len(dt.Seqs) {
+				r.Seq = dt.Seqs[i]
+			}
+			for _, v := range row {
+				r.Vals = append(r.Vals, v.Go())
+			}
+			t.Rows = append(t.Rows, r)
+			if r.Seq > d.seq {
+				d.seq = r.Seq
+			}
+		}
+		d.Tables[dt.Name] = t
+		d.Order = append(d.Order, dt.Name)
+	}
+	return d
+}
